@@ -32,7 +32,7 @@ THEOREMS = ["NfcVerif.C07." + t for t in (
     "dep_rtox_total", "dep_rtox_counterexample", "dep_target_rtox_total", "dep_target_rtox_counterexample",
     "dep_after_deselect_total", "dep_after_deselect_counterexample",
     "pax_total", "pax_counterexample", "t3emu_total_partial", "t3emu_counterexample",
-    "linkloop_never_waits", "linkloop_never_waits_counterexample", "second_cc_ignored",
+    "dispatch_total", "linkloop_never_waits", "linkloop_never_waits_counterexample", "second_cc_ignored",
     "peer_bytes_flow", "peer_bytes_flow_counterexample", "flow_contains", "connect_returns_normally",
     "card_loop_contains", "card_loop_counterexample")]
 
@@ -85,7 +85,7 @@ def probe(P, L):
     v["rtox"] = dict(st).get("exchange") == "exc ProtocolError"
     v["gb"] = P.llc_activate(1, b"Ffm\x01\x05\x11")[0] == "ok False"
     from sims.t34_sims import EmuLink
-    v["t3"] = P.t3_command(EmuLink(bytes(16)), b"\x01")[0].startswith("ok none")
+    v["t3"] = P.t3_command(EmuLink(bytes(16)), b"")[0].startswith("ok none")
     w = L.World()
     r = L.guarded(lambda: w.inject(b"\x90\xe0"))
     w.close()
@@ -553,6 +553,12 @@ def part_user(cx):
         for name, fn, me, peer in ops:
             pl = pool(me, peer)
             scripts = [[p] for p in pl] + [[]]
+            # every ordered pair of PDU types in one aggregate and in two consecutive frames
+            rep = [hdr(me, t, peer) + pdu_tails(rng, t)[1 if t in (7, 8, 12, 13, 14) else 0] for t in (3, 4, 5, 6, 7, 8, 12, 13)]
+            for a in rep:
+                for b in rep:
+                    scripts.append([agf([a, b])])
+                    scripts.append([a, b])
             for _ in range(300 if ck.thorough else 60):
                 k = rng.randrange(1, 4)
                 items = [rng.choice(pl) for _ in range(k)]
